@@ -213,7 +213,7 @@ func (wd *world) submit(b body) (accepted bool) {
 				<-b.gate
 			}
 			wd.log(fmt.Sprintf("re %d", t))
-		})
+		}, stackTraceArg(t)...)
 	})
 	wd.mu.Lock()
 	defer wd.mu.Unlock()
@@ -235,6 +235,18 @@ func (wd *world) submit(b body) (accepted bool) {
 }
 
 var spinSink atomic.Int64
+
+// stackTraceArg: every third Submit passes the optional stack-trace argument (one or two strings: only the first counts).
+func stackTraceArg(t int) []string {
+	switch t % 3 {
+	case 1:
+		return []string{"c16 trace"}
+	case 2:
+		return []string{"c16 trace", "ignored"}
+	}
+
+	return nil
+}
 
 // within runs f in its own goroutine and reports whether it returned within d (a hung f is leaked).
 func within(d time.Duration, f func()) bool {
